@@ -31,6 +31,68 @@ func runC18(p *eng.Prog, r *eng.Report, tier string) {
 	// channel is registered is the key the room's presence is looked up with
 	c11NoRawPartAppended(c, "C18.13")
 	jidEqualRule(c, "C18.13")
+	// C18.16 check-then-act under one lock: the removal of a room acts on the
+	// entry that was looked up in the SAME critical section. Between the last
+	// acquisition of managedM before the delete and the delete there is a read of
+	// Client.managed; a delete in a critical section of its own (lock narrowed
+	// to the map operations) can remove the registration that a concurrent
+	// re-join stored after the lookup.
+	if hp := c.fn("C18.16", "muc", "(*Client).HandlePresence"); hp != nil {
+		g := hp.Graph()
+		n := 0
+		for _, mu := range hp.MapUpdates() {
+			if k, _ := hp.FieldClass(mu.Map); k != "muc.Client.managed" || !mu.Delete {
+				continue
+			}
+			n++
+			dp, _ := g.Where(mu.Node)
+			isAcq := func(q eng.Point, nd ast.Node) bool {
+				found := false
+				ast.Inspect(nd, func(x ast.Node) bool {
+					if cl, ok := x.(*ast.CallExpr); ok {
+						if op, cls, _ := hp.LockOp(cl); op > 0 && cls == "muc.Client.managedM" {
+							found = true
+						}
+					}
+					return !found
+				})
+				return found
+			}
+			// a read of the map that reaches the delete without passing an acquisition
+			okSame := false
+			hp.WalkBody(func(nd ast.Node) bool {
+				ix, ok := nd.(*ast.IndexExpr)
+				if !ok {
+					return true
+				}
+				if k, _ := hp.FieldClass(ix.X); k != "muc.Client.managed" {
+					return true
+				}
+				if rp, okp := g.Where(ix); okp && g.Reachable(g.After(rp), dp, nil, isAcq) {
+					okSame = true
+				}
+				return true
+			})
+			c.r.Check("C18.16", hp, "room removed in the critical section that looked it up", "L: a read of Client.managed reaches the delete without an acquisition of managedM in between (lookup and removal are one critical section)", mu.Node.Pos(), okSame, "the delete runs in a critical section of its own: a registration stored by a concurrent re-join after the lookup is removed")
+		}
+		c.r.Floor("C18.16", "removals in HandlePresence", n, 1)
+	}
+	// C18.15 channel rules restricted to the muc package: the presence handler
+	// runs on the serve goroutine (and under managedM): none of its channel
+	// operations can block (a plain send on the one-slot departure channel
+	// blocks as soon as a second removal arrives without a Leave in between)
+	{
+		var scope []*eng.Fn
+		why := map[*eng.Fn]string{}
+		all, w := serveScope(c)
+		for _, f := range all {
+			if strings.HasPrefix(f.Short, "muc.") {
+				scope = append(scope, f)
+				why[f] = w[f]
+			}
+		}
+		chanRulesFiltered(c, "C18.15", scope, why, "muc.")
+	}
 	// C18.14 the room's presences are only processed while the serve loop runs:
 	// every response a join/leave obtains is released on every path (E-res)
 	respRelease(c, "C18.14", 8)
